@@ -217,8 +217,24 @@ class Shadow:
                 if task is not None and hasattr(task, "priority_value") and numval(task.priority_value) != e[1]:
                     self.tags.add("inherited-priority-used")
 
+    def refresh(self):
+        """Inheritance, decided by the oracle itself: a queued regular entry of a PriorityTask whose
+        effective priority has become more urgent since it was keyed (somebody started waiting, directly
+        or through a chain of locks, for a lock it holds) counts as re-prioritised at that moment —
+        whether or not the code under test told the loop.  (In these programs — no cancellation — the
+        effective priority of a queued task never becomes less urgent, so nothing else is re-keyed.)"""
+        for e in self.regular:
+            try:
+                k = self.key_of(e[0])
+            except Exception:  # noqa: BLE001 - the domain oracle reports exceptions
+                continue
+            if k < e[1]:
+                e[1] = k
+                self.tags.add("re-prioritised-by-oracle")
+
     def running(self, handle):
         """called when the loop runs `handle`"""
+        self.refresh()
         try:
             self._situations(handle)
         except Exception:  # noqa: BLE001 - statistics only
@@ -997,6 +1013,29 @@ def gen_chain(rng):
     init = [["t", 0]] + [["t", depth + 1 + i] for i in range(nb)]
     rng.shuffle(init)
     return {"tasks": tasks, "init": init, "locks": depth}
+
+
+def gen_inflight(rng):
+    """a lock waiter that has been woken but has not run yet inherits a priority: W holds lock 0 and waits
+    for lock 1; its owner O releases lock 1 (W's wake-up is queued at W's own, lazy, priority) and, before
+    W runs, an urgent X starts waiting for lock 0 while a task M of intermediate priority is ready: W must
+    be re-prioritised where it is queued and run before M."""
+    urgent = rng.choice(["i:-10", "e:HIGH", "f:-1.0"])
+    lazy = rng.choice(["i:10", "e:LOW", "f:10.0"])
+    mid = rng.choice(["i:0", "f:0.0", "e:NORMAL", "f:0.5", "i:1"])
+    o_pri = rng.choice(["i:1", "f:0.5", "i:0", "i:10", mid])
+    nmid = rng.randint(1, 2)
+    o_ops = [["aq", 1], ["de", 1]] + ([["cs", 400]] if rng.random() < 0.3 else []) + [["rl", 1]]
+    late = [["cr8", 2 + i] for i in range(nmid)] + [["cr8", 2 + nmid]]
+    rng.shuffle(late)
+    o_ops += late + [rng.choice([["sleep0"], ["it"], ["si", rng.randint(2, 4)]]), ["sleep0"]]
+    tasks = [{"kind": "prio", "pri": o_pri, "ops": o_ops},
+             {"kind": "prio", "pri": lazy, "ops": [["aq", 0], ["aq", 1], ["cs", 401], ["rl", 1], ["rl", 0]]}]
+    for i in range(nmid):
+        tasks.append({"kind": rng.choice(["prio", "prio", "plain"]), "pri": mid,
+                      "ops": [["cs", 410 + i]] + [["sleep0"]] * rng.randint(0, 2)})
+    tasks.append({"kind": "prio", "pri": urgent, "ops": [["aq", 0], ["cs", 420], ["rl", 0]]})
+    return {"tasks": tasks, "init": [["t", 0]], "locks": 2}
 
 
 def zeroed(prog):
